@@ -3,6 +3,11 @@
 #   demo fails with the change, passes without it, the existing test suite passes with the change.
 # Writes /tmp/confirm_<name>.log ; removes the scratch worktree afterwards.
 name=$1; patch=$2; demo=$3
+if [ "$4" != "notests" ]; then
+  # several runners may work through the list: one of them takes a seed
+  grep -q "^tests:" /tmp/confirm_$name.log 2>/dev/null && exit 0
+  mkdir /tmp/confirm_$name.lock 2>/dev/null || exit 0
+fi
 wt=/tmp/cf_$name
 log=/tmp/confirm_$name.log
 : > $log
